@@ -99,9 +99,17 @@ static int line_to_instr(struct instr *instr_data, char *filtered_asm_str) {
       fprintf(stderr, "cannot set a long jump to short\n");
       return EXIT_FAILURE;
     }
+    // an instruction that only has a rel8 form cannot reach further
+    FAIL_IF_MSG(INSTR_TABLE[instr_data->key].encode_operand == S &&
+                    instr_data->cons > MAX_SIGNED_8BIT &&
+                    instr_data->cons < NEG80BIT &&
+                    !IN_RANGE(instr_data->cons, NEG80_32BIT,
+                              MAX_UNSIGNED_32BIT),
+                "jump displacement does not fit in 8 bits\n");
   }
   // find the encoding for a short jump instruction if applicable
-  instr_data->key += instr_data->keyword.is_short;
+  if (INSTR_TABLE[instr_data->key + 1].encode_operand == S)
+    instr_data->key += instr_data->keyword.is_short;
   // values will be determined during encoding
   instr_data->hex.reg = NONE;
   instr_data->hex.rex = NONE;
